@@ -128,7 +128,7 @@ func c12GenHistory(fsType string, sa, sb uint64, r *rand.Rand, n int) []fsx.Op {
 			env.Exec(ops[len(ops)-2])
 			continue
 		}
-		s := c12Snap(base, fsx.SnapOpts{})
+		s := c12Snap(base, fsx.SnapOpts{SentMtime: true})
 		cwd, _ := base.Getwd()
 		g.Observe(s.Recs, cwd)
 		o := g.Next()
@@ -209,9 +209,9 @@ func c12History(c *rt.Ctx, fsType string, h int) {
 		if o.K == "CreateTemp" || o.K == "MkdirTemp" {
 			continue // random names: the harness call that follows removes them on both sides
 		}
-		sa1, sb1 := c12Snap(base, fsx.SnapOpts{}), c12Snap(twin, fsx.SnapOpts{})
+		sa1, sb1 := c12Snap(base, fsx.SnapOpts{SentMtime: true}), c12Snap(twin, fsx.SnapOpts{SentMtime: true})
 		if sa1.String() != sb1.String() {
-			c.Disagree(fmt.Sprintf("ok-plan|%s|%s|effect-differs", fsType, o.K), fmt.Sprintf("FailFS(%s) with the always-OK function: after %s the base differs from a twin driven directly: %v", fsType, o, fsx.Diff(sa1, sb1, false, 5)), replay("ok", i))
+			c.Disagree(fmt.Sprintf("ok-plan|%s|%s|effect-differs", fsType, o.K), fmt.Sprintf("FailFS(%s) with the always-OK function: after %s the base differs from a twin driven directly: %v", fsType, o, fsx.Diff(sa1, sb1, true, 5)), replay("ok", i))
 			return
 		}
 	}
@@ -363,9 +363,9 @@ func c12History(c *rt.Ctx, fsType string, h int) {
 					_ = base.WriteFile("/w/verif-sub-file", []byte("x"), 0o644)
 					o = fsx.Op{K: "Remove", P: "/verif-sub-file"}
 				}
-				before := c12Snap(base, fsx.SnapOpts{}).String()
+				before := c12Snap(base, fsx.SnapOpts{SentMtime: true}).String()
 				res := senv.Exec(o)
-				after := c12Snap(base, fsx.SnapOpts{}).String()
+				after := c12Snap(base, fsx.SnapOpts{SentMtime: true}).String()
 				sig := fmt.Sprintf("always-fail|%s|Sub+%s|%s", fsType, o.K, fnName)
 				c.Rep.Case(sig+"|"+res.Err, true)
 				if res.E == nil || before != after {
@@ -430,7 +430,7 @@ func c12History(c *rt.Ctx, fsType string, h int) {
 		both := func(o fsx.Op, phase string) {
 			a, b := env.Exec(o), tenv.Exec(o)
 			c.Rep.Case(fmt.Sprintf("function-changed|%s|%s|%s|%s", fsType, phase, o.K, a.Err), true)
-			sa, sb := c12Snap(base, fsx.SnapOpts{}).String(), c12Snap(twin, fsx.SnapOpts{}).String()
+			sa, sb := c12Snap(base, fsx.SnapOpts{SentMtime: true}).String(), c12Snap(twin, fsx.SnapOpts{SentMtime: true}).String()
 			if a.Err != b.Err || a.Val != b.Val || sa != sb {
 				c.Disagree(fmt.Sprintf("function-changed|%s|%s|%s|wrapped=%s|bare=%s", fsType, phase, o.K, a.Err, b.Err), fmt.Sprintf("FailFS(%s), handle opened under another failure function, function now %s: %s returns %s, on the bare file system %s; %v", fsType, phase, o, a, b, diffText(sa, sb)), nil)
 			}
@@ -495,7 +495,7 @@ func init() {
 		Shards: shards(8, 16),
 		Meta: func(tier string) rt.Meta {
 			return rt.Meta{Level: "fault_enumeration", MinEvals: 2000, MinDistinct: 30, Exhaustive: true,
-				Rule:        "per history of 12-25 calls over all VFS and File methods on a random tree (MemFS, OrefaFS bases): (a) always-OK function: results and base snapshot equal to a twin base driven directly, and every direct primitive consults the callback with its own FnVFS id, every successful composite (Create, WriteFile, ReadFile, ReadDir, MkdirTemp) shows the primitives it is built on; (b) EVERY single-fault plan 'fail the k-th consultation' (exhaustive per history): the enclosing call must return an error - exactly the injected value for a direct primitive, none for Glob - and the base snapshot taken inside the callback at the moment of injection must equal the snapshot when the call returns; (c) 'fail every consultation of F' for every F seen: every call of that kind, including calls on files and sub file systems handed out by the FailFS, must return the injected error and leave the base untouched; (d) ReadOnlyFunc: the base (incl. mtimes) never changes. The class of the injected error varies with the plan (opaque, not-exist, permission, exist). In one history in three the acting identity is changed on the way (SetUser with made-up identities, twice under one name with other ids); the monitor's snapshots are taken as the administrator. In half of the histories the read-only plan is driven through a second FailFS stacked on the first. Signature = plan kind | base fs | call kind | injected primitive | outcome; all non-trivial.",
+				Rule:        "per history of 12-25 calls over all VFS and File methods on a random tree (MemFS, OrefaFS bases): (a) always-OK function: results and base snapshot equal to a twin base driven directly, and every direct primitive consults the callback with its own FnVFS id, every successful composite (Create, WriteFile, ReadFile, ReadDir, MkdirTemp) shows the primitives it is built on; (b) EVERY single-fault plan 'fail the k-th consultation' (exhaustive per history): the enclosing call must return an error - exactly the injected value for a direct primitive, none for Glob - and the base snapshot taken inside the callback at the moment of injection must equal the snapshot when the call returns; (c) 'fail every consultation of F' for every F seen: every call of that kind, including calls on files and sub file systems handed out by the FailFS, must return the injected error and leave the base untouched; (d) ReadOnlyFunc: the base (incl. mtimes) never changes. The class of the injected error varies with the plan (opaque, not-exist, permission, exist). In one history in three the acting identity is changed on the way (SetUser with made-up identities, twice under one name with other ids); the monitor's snapshots are taken as the administrator. In half of the histories the read-only plan is driven through a second FailFS stacked on the first. (e) the function is changed while a handle is open: ReadOnlyFunc, then a plan failing the very primitive, then OkFunc again - every File call asks the function installed at the time of the call (refused with the base untouched / exactly the injected error / as on a bare twin). Signature = plan kind | base fs | call kind | injected primitive | outcome; all non-trivial.",
 				Assumptions: []string{"a single exist-class fault inside CreateTemp/MkdirTemp is absorbed by their documented retry (counted, not judged); persistent exist-class faults are C07's business"}}
 		},
 		Run: func(c *rt.Ctx) {
